@@ -1,4 +1,417 @@
-import GristModel.DocSpec
+/-
+C02  Emitted doc actions are a faithful persistence delta.
+Property theorems about the engine model (GristModel/Engine.lean); helper lemmas are in
+GristProofs/EngineLists.lean and GristProofs/CalcFlush.lean.
+-/
+import GristProofs.EngineLists
+import GristProofs.CalcFlush
+import GristProofs.CalcGeneral
 namespace Grist.Doc
-theorem placeholder_C02 : True := trivial
+
+/-! ### (B0), (B1): doc steps -/
+
+/-- (B0) the document produced by a `DocActions` method does not depend on the action summary. -/
+theorem docAction_doc_indep_summary (d : Doc) (s s' : Summary) (a : DocAction) :
+    (docAction d s a).map (·.doc) = (docAction d s' a).map (·.doc) :=
+  docAction_doc_indep d s s' a
+
+/-- (B1) for a word of `doc` steps, replaying the stored actions the word appended onto the start
+    document gives exactly the engine's final document. -/
+theorem stored_faithful_docwords {st st' : EState} {w : List Step}
+    (hw : ∀ s ∈ w, ∃ a b, s = Step.doc a b) (h : run st w = .ok st') :
+    applyAll st.doc (st'.stored.drop st.stored.length) = .ok st'.doc :=
+  run_docwords_faithful w hw h
+
+/-! ### (B2 i) `add_changes`: first `before`, last `after`, one entry per row -/
+
+/-- the fold `Summary.addChanges` performs is `addChangesFold` -/
+theorem addChanges_colDelta (s : Summary) (t c : String) (chs : List (Nat × Val × Val)) :
+    ((s.addChanges t c chs).get t).colDeltas.lookup c =
+      some (addChangesFold (((s.get t).colDeltas.lookup c).getD []) chs) := by
+  simp [Summary.addChanges, Summary.get_put, lookup_filter_ne_append, addChangesFold]
+
+/-- After folding `chs` into `m`: a row no change names keeps what `m` had; otherwise its entry is
+    `(before, after)` with `before` the one `m` already had, else the `before` of the FIRST change
+    for the row, and `after` the `after` of the LAST change for the row. -/
+theorem addChange_first_before_last_after (chs m : List (Nat × Val × Val)) (r : Nat) :
+    (chs.foldl (fun m ch => addChange m ch.1 ch.2.1 ch.2.2) m).lookup r =
+      match (chs.filter (·.1 == r)).getLast? with
+      | none => m.lookup r
+      | some last =>
+        some (match m.lookup r with
+              | some p => p.1
+              | none => (((chs.filter (·.1 == r)).head?).map (·.2.1)).getD last.2.1,
+              last.2.2) :=
+  addChangesFold_lookup chs m r
+
+/-- started from the empty delta: `(first before, last after)` of the changes naming the row -/
+theorem addChange_from_empty (chs : List (Nat × Val × Val)) (r : Nat) :
+    (chs.foldl (fun m ch => addChange m ch.1 ch.2.1 ch.2.2) []).lookup r =
+      match (chs.filter (·.1 == r)).head?, (chs.filter (·.1 == r)).getLast? with
+      | some f, some l => some (f.2.1, l.2.2)
+      | _, _ => none :=
+  addChangesFold_nil_lookup chs r
+
+/-- at most one entry per row is kept -/
+theorem addChange_one_entry_per_row (chs m : List (Nat × Val × Val))
+    (h : (m.map (·.1)).Nodup) :
+    ((chs.foldl (fun m ch => addChange m ch.1 ch.2.1 ch.2.2) m).map (·.1)).Nodup :=
+  addChangesFold_keys_nodup chs m h
+
+/-! ### (B2 ii) row presence recorded by `add_records` / `remove_records` -/
+
+theorem amSet_lookup' (m : List (Nat × Bool)) (k : Nat) (v : Bool) (j : Nat) :
+    (amSet m k v).lookup j = if j = k then some v else m.lookup j := amSet_lookup m k v j
+
+theorem amSetDefault_lookup' (m : List (Nat × Bool)) (k : Nat) (v : Bool) (j : Nat) :
+    (amSetDefault m k v).lookup j = if j = k then some ((m.lookup k).getD v) else m.lookup j :=
+  amSetDefault_lookup m k v j
+
+/-- untouched rows stay as they were (in particular absent stays absent) -/
+theorem presence_untouched (s : Summary) (t : String) (rows : List Nat) (r : Nat) (h : r ∉ rows) :
+    ((s.addRecords t rows).get t).presentBefore.lookup r = (s.get t).presentBefore.lookup r ∧
+    ((s.addRecords t rows).get t).presentAfter.lookup r = (s.get t).presentAfter.lookup r ∧
+    ((s.removeRecords t rows).get t).presentBefore.lookup r = (s.get t).presentBefore.lookup r ∧
+    ((s.removeRecords t rows).get t).presentAfter.lookup r = (s.get t).presentAfter.lookup r := by
+  simp [addRecords_presentBefore, addRecords_presentAfter, removeRecords_presentBefore,
+    removeRecords_presentAfter, h]
+
+/-- a row first seen when added: before = absent, after = present -/
+theorem presence_added (s : Summary) (t : String) (rows : List Nat) (r : Nat) (h : r ∈ rows)
+    (h0 : (s.get t).presentBefore.lookup r = none) :
+    ((s.addRecords t rows).get t).presentBefore.lookup r = some false ∧
+    ((s.addRecords t rows).get t).presentAfter.lookup r = some true := by
+  simp [addRecords_presentBefore, addRecords_presentAfter, h, h0]
+
+/-- a row first seen when removed: before = present, after = absent -/
+theorem presence_removed (s : Summary) (t : String) (rows : List Nat) (r : Nat) (h : r ∈ rows)
+    (h0 : (s.get t).presentBefore.lookup r = none) :
+    ((s.removeRecords t rows).get t).presentBefore.lookup r = some true ∧
+    ((s.removeRecords t rows).get t).presentAfter.lookup r = some false := by
+  simp [removeRecords_presentBefore, removeRecords_presentAfter, h, h0]
+
+/-- added then removed ⇒ before = false, after = false -/
+theorem presence_added_then_removed (s : Summary) (t : String) (rows1 rows2 : List Nat) (r : Nat)
+    (h1 : r ∈ rows1) (h2 : r ∈ rows2) (h0 : (s.get t).presentBefore.lookup r = none) :
+    (((s.addRecords t rows1).removeRecords t rows2).get t).presentBefore.lookup r = some false ∧
+    (((s.addRecords t rows1).removeRecords t rows2).get t).presentAfter.lookup r = some false := by
+  simp [addRecords_presentBefore, removeRecords_presentBefore, removeRecords_presentAfter,
+    h1, h2, h0]
+
+/-- removed then added ⇒ before = true, after = true -/
+theorem presence_removed_then_added (s : Summary) (t : String) (rows1 rows2 : List Nat) (r : Nat)
+    (h1 : r ∈ rows1) (h2 : r ∈ rows2) (h0 : (s.get t).presentBefore.lookup r = none) :
+    (((s.removeRecords t rows1).addRecords t rows2).get t).presentBefore.lookup r = some true ∧
+    (((s.removeRecords t rows1).addRecords t rows2).get t).presentAfter.lookup r = some true := by
+  simp [addRecords_presentBefore, removeRecords_presentBefore, addRecords_presentAfter,
+    h1, h2, h0]
+
+/-! ### (B3, special case) `calc` steps on one column, then `finish`
+
+Setting: empty `stored` and empty summary at the start; the calc column `(t, c)` exists and is not
+defunct-named; all touched rows exist.  `mergedChange chs k` is the `(first before, last after)`
+recorded for row `k` by the changes `chs` (all calc steps concatenated). -/
+
+/-- The word emits nothing or ONE `BulkUpdateRecord t rows {c: vals}` (`flushAction`), whose rows are
+    exactly the rows whose merged before/after differ under `equal_encoding`, each carrying the
+    last `after`. -/
+theorem calc_word_emits {st st' : EState} {t c : String} {tb : Table} {col : Col}
+    (hs : st.summary = {}) (hsto : st.stored = [])
+    (ht : isDefunct t = false) (hc : isDefunct c = false)
+    (hT : findTable? st.doc t = some tb) (hC : tb.findCol? c = some col)
+    (calcs : List (List (Nat × Val × Val)))
+    (h : run st (calcs.map (Step.calc t c) ++ [.finish]) = .ok st') :
+    let delta := addChangesFold [] calcs.flatten
+    let rows := changedRows delta
+    st'.stored = (if rows.isEmpty then [] else [.bulkUpdate t rows [(c, rows.map (afterOf delta))]]) ∧
+    (∀ k, k ∈ rows ↔ ∃ b a, mergedChange calcs.flatten k = some (b, a) ∧ equalEncoding b a = false) ∧
+    (∀ k b a, mergedChange calcs.flatten k = some (b, a) → afterOf delta k = a) :=
+  ⟨calc_finish_stored hs hsto ht hc hT hC calcs h, mem_changedRows_merged _,
+   fun _ _ _ h => afterOf_merged h⟩
+
+/-- Replaying the emitted actions on the start document succeeds; the replayed document and the
+    engine's document are both the start document with only the cells of column `(t, c)` changed
+    (`ColView`), to `fR` resp. `fE`, where at a row `k`
+    * not touched: both are the start value;
+    * touched with merged `(b, a)`: the engine has `a`; the replay has `a` if `b`, `a` differ under
+      `equal_encoding` and the start value otherwise. -/
+theorem stored_faithful_calc_word_cells {st st' : EState} {t c : String} {tb : Table} {col : Col}
+    (hs : st.summary = {}) (hsto : st.stored = [])
+    (ht : isDefunct t = false) (hc : isDefunct c = false)
+    (hT : findTable? st.doc t = some tb) (hC : tb.findCol? c = some col)
+    (calcs : List (List (Nat × Val × Val)))
+    (hrows : ∀ ch ∈ calcs.flatten, ch.1 ∈ tb.rows)
+    (hnorm : ∀ ch ∈ calcs.flatten, colSet col.info.type ch.2.2 = ch.2.2)
+    (h : run st (calcs.map (Step.calc t c) ++ [.finish]) = .ok st') :
+    ∃ d' fR fE, applyAll st.doc st'.stored = .ok d' ∧
+      ColView st.doc t c tb col d' fR ∧ ColView st.doc t c tb col st'.doc fE ∧
+      ∀ k, match mergedChange calcs.flatten k with
+        | none => fE k = col.cells k ∧ fR k = col.cells k
+        | some (b, a) => fE k = a ∧ fR k = if equalEncoding b a then col.cells k else a := by
+  obtain ⟨d', h1, h2, h3⟩ := calc_finish_views hs hsto ht hc hT hC calcs hrows h
+  exact ⟨d', _, _, h1, h2, h3, replay_vs_engine_cells col _ hnorm⟩
+
+/-- If moreover the first `before` reported for a row is the start document's cell, the replayed
+    document shows the same as the engine's document up to `equal_encoding` of cell values. -/
+theorem stored_faithful_calc_word_encSame {st st' : EState} {t c : String} {tb : Table} {col : Col}
+    (hs : st.summary = {}) (hsto : st.stored = [])
+    (ht : isDefunct t = false) (hc : isDefunct c = false)
+    (hT : findTable? st.doc t = some tb) (hC : tb.findCol? c = some col)
+    (calcs : List (List (Nat × Val × Val)))
+    (hrows : ∀ ch ∈ calcs.flatten, ch.1 ∈ tb.rows)
+    (hnorm : ∀ ch ∈ calcs.flatten, colSet col.info.type ch.2.2 = ch.2.2)
+    (hbefore : ∀ k b a, mergedChange calcs.flatten k = some (b, a) → b = col.cells k)
+    (h : run st (calcs.map (Step.calc t c) ++ [.finish]) = .ok st') :
+    ∃ d', applyAll st.doc st'.stored = .ok d' ∧ EncSame d' st'.doc := by
+  obtain ⟨d', h1, h2, h3⟩ := calc_finish_views hs hsto ht hc hT hC calcs hrows h
+  refine ⟨d', h1, h2.sameRel h3 equalEncoding_refl (fun k _ => ?_)⟩
+  have := replay_vs_engine_cells col _ hnorm k
+  cases hm : mergedChange calcs.flatten k with
+  | none => rw [hm] at this; rw [this.1, this.2]; exact equalEncoding_refl _
+  | some p =>
+    obtain ⟨b, a⟩ := p
+    rw [hm] at this
+    simp only at this
+    rw [this.1, this.2]
+    cases he : equalEncoding b a with
+    | false => simp [equalEncoding_refl]
+    | true => simp only [↓reduceIte]; rw [← hbefore k b a hm]; exact he
+
+/-- If moreover no touched row changed only its encoding (`1` vs `1.0`), the replayed document
+    shows exactly the same as the engine's document (`Same`). -/
+theorem stored_faithful_calc_word {st st' : EState} {t c : String} {tb : Table} {col : Col}
+    (hs : st.summary = {}) (hsto : st.stored = [])
+    (ht : isDefunct t = false) (hc : isDefunct c = false)
+    (hT : findTable? st.doc t = some tb) (hC : tb.findCol? c = some col)
+    (calcs : List (List (Nat × Val × Val)))
+    (hrows : ∀ ch ∈ calcs.flatten, ch.1 ∈ tb.rows)
+    (hnorm : ∀ ch ∈ calcs.flatten, colSet col.info.type ch.2.2 = ch.2.2)
+    (hbefore : ∀ k b a, mergedChange calcs.flatten k = some (b, a) → b = col.cells k)
+    (hstrict : ∀ k b a, mergedChange calcs.flatten k = some (b, a) →
+      equalEncoding b a = true → b = a)
+    (h : run st (calcs.map (Step.calc t c) ++ [.finish]) = .ok st') :
+    ∃ d', applyAll st.doc st'.stored = .ok d' ∧ Same d' st'.doc := by
+  obtain ⟨d', h1, h2, h3⟩ := calc_finish_views hs hsto ht hc hT hC calcs hrows h
+  refine ⟨d', h1, (sameRel_eq_iff_same _ _).mp (h2.sameRel h3 (fun _ => rfl) (fun k _ => ?_))⟩
+  have := replay_vs_engine_cells col _ hnorm k
+  cases hm : mergedChange calcs.flatten k with
+  | none => rw [hm] at this; rw [this.1, this.2]
+  | some p =>
+    obtain ⟨b, a⟩ := p
+    rw [hm] at this
+    simp only at this
+    rw [this.1, this.2]
+    cases he : equalEncoding b a with
+    | false => simp
+    | true => simp only [↓reduceIte]; rw [← hbefore k b a hm]; exact hstrict k b a hm he
+
+/-! ### (B3, general form) bulk record actions on other tables interleaved with calc steps
+
+`StepOK t c s`: `s` is a `doc` step carrying a BulkAddRecord / BulkRemoveRecord / BulkUpdateRecord
+on a table other than `t`, or a `calc` step on column `(t, c)`.  `docActs w` are the doc actions of
+the word in order, `calcChs w` the concatenated calc changes. -/
+
+/-- what the bundle stores: the doc actions in order, then the calc flush of column `(t, c)` -/
+theorem bulk_calc_word_emits {st st' : EState} {t c : String} {tb : Table} {col : Col}
+    (hs : st.summary = {}) (hsto : st.stored = [])
+    (ht : isDefunct t = false) (hc : isDefunct c = false)
+    (hT : findTable? st.doc t = some tb) (hC : tb.findCol? c = some col)
+    (w : List Step) (hw : ∀ s ∈ w, StepOK t c s)
+    (hrows : ∀ ch ∈ calcChs w, ch.1 ∈ tb.rows)
+    (h : run st (w ++ [.finish]) = .ok st') :
+    st'.stored = docActs w ++ flushAction t c (addChangesFold [] (calcChs w)) :=
+  (bulk_calc_finish_views hs hsto ht hc hT hC w hw hrows h).1
+
+/-- (B3) replaying the stored actions of the bundle on the start document gives a document that
+    shows the same as the engine's document up to `equal_encoding` of cell values … -/
+theorem stored_faithful_calc_fixed_schema_encSame {st st' : EState} {t c : String} {tb : Table}
+    {col : Col} (hs : st.summary = {}) (hsto : st.stored = [])
+    (ht : isDefunct t = false) (hc : isDefunct c = false)
+    (hT : findTable? st.doc t = some tb) (hC : tb.findCol? c = some col)
+    (w : List Step) (hw : ∀ s ∈ w, StepOK t c s)
+    (hrows : ∀ ch ∈ calcChs w, ch.1 ∈ tb.rows)
+    (hnorm : ∀ ch ∈ calcChs w, colSet col.info.type ch.2.2 = ch.2.2)
+    (hbefore : ∀ k b a, mergedChange (calcChs w) k = some (b, a) → b = col.cells k)
+    (h : run st (w ++ [.finish]) = .ok st') :
+    ∃ d', applyAll st.doc st'.stored = .ok d' ∧ EncSame d' st'.doc := by
+  obtain ⟨_, D1, d', _, h1, h2, h3⟩ := bulk_calc_finish_views hs hsto ht hc hT hC w hw hrows h
+  refine ⟨d', h1, h2.sameRel h3 equalEncoding_refl (fun k _ => ?_)⟩
+  have := replay_vs_engine_cells col _ hnorm k
+  cases hm : mergedChange (calcChs w) k with
+  | none => rw [hm] at this; rw [this.1, this.2]; exact equalEncoding_refl _
+  | some p =>
+    obtain ⟨b, a⟩ := p
+    rw [hm] at this
+    simp only at this
+    rw [this.1, this.2]
+    cases he : equalEncoding b a with
+    | false => simp [equalEncoding_refl]
+    | true => simp only [↓reduceIte]; rw [← hbefore k b a hm]; exact he
+
+/-- … and exactly the same (`Same`) when no touched row changed only its encoding. -/
+theorem stored_faithful_calc_fixed_schema {st st' : EState} {t c : String} {tb : Table}
+    {col : Col} (hs : st.summary = {}) (hsto : st.stored = [])
+    (ht : isDefunct t = false) (hc : isDefunct c = false)
+    (hT : findTable? st.doc t = some tb) (hC : tb.findCol? c = some col)
+    (w : List Step) (hw : ∀ s ∈ w, StepOK t c s)
+    (hrows : ∀ ch ∈ calcChs w, ch.1 ∈ tb.rows)
+    (hnorm : ∀ ch ∈ calcChs w, colSet col.info.type ch.2.2 = ch.2.2)
+    (hbefore : ∀ k b a, mergedChange (calcChs w) k = some (b, a) → b = col.cells k)
+    (hstrict : ∀ k b a, mergedChange (calcChs w) k = some (b, a) →
+      equalEncoding b a = true → b = a)
+    (h : run st (w ++ [.finish]) = .ok st') :
+    ∃ d', applyAll st.doc st'.stored = .ok d' ∧ Same d' st'.doc := by
+  obtain ⟨_, D1, d', _, h1, h2, h3⟩ := bulk_calc_finish_views hs hsto ht hc hT hC w hw hrows h
+  refine ⟨d', h1, (sameRel_eq_iff_same _ _).mp (h2.sameRel h3 (fun _ => rfl) (fun k _ => ?_))⟩
+  have := replay_vs_engine_cells col _ hnorm k
+  cases hm : mergedChange (calcChs w) k with
+  | none => rw [hm] at this; rw [this.1, this.2]
+  | some p =>
+    obtain ⟨b, a⟩ := p
+    rw [hm] at this
+    simp only at this
+    rw [this.1, this.2]
+    cases he : equalEncoding b a with
+    | false => simp
+    | true => simp only [↓reduceIte]; rw [← hbefore k b a hm]; exact hstrict k b a hm he
+
+/-! ### non-vacuity -/
+
+def c02Info : ColInfo := { type := "Text", isFormula := false, formula := "", reverseColId := none }
+def c02FInfo : ColInfo := { type := "Text", isFormula := true, formula := "$A", reverseColId := none }
+def c02ColB : Col := { id := "B", info := c02FInfo, cells := fun _ => .str "" }
+def c02Tb : Table :=
+  { id := "T", rows := [1, 2],
+    cols := [{ id := "A", info := c02Info, cells := fun _ => .str "" }, c02ColB] }
+def c02St : EState := { doc := [c02Tb] }
+
+def c02DocWord : List Step :=
+  [.doc (.bulkUpdate "T" [1] [("A", [.str "x"])]) true,
+   .doc (.addColumn "T" "C" c02Info) true,
+   .doc (.bulkRemove "T" [2]) false]
+
+/-- (B1) applies to a concrete successful word of three doc steps -/
+example : ∃ st', run c02St c02DocWord = .ok st' ∧ st'.stored.length = 3 ∧
+    applyAll c02St.doc st'.stored = .ok st'.doc :=
+  ⟨_, rfl, rfl, stored_faithful_docwords (st := c02St) (w := c02DocWord)
+    (by simp [c02DocWord]) rfl⟩
+
+def c02Calcs : List (List (Nat × Val × Val)) :=
+  [[(1, .str "", .str "x")], [(1, .str "x", .str "y"), (2, .str "", .str "")]]
+
+/-- the calc word runs and emits exactly one update, for row 1 only, with the last value -/
+example : ∃ st', run c02St (c02Calcs.map (Step.calc "T" "B") ++ [.finish]) = .ok st' ∧
+    st'.stored = [.bulkUpdate "T" [1] [("B", [.str "y"])]] :=
+  ⟨_, rfl, by decide +kernel⟩
+
+theorem c02_merged (k : Nat) (b a : Val) (h : mergedChange c02Calcs.flatten k = some (b, a)) :
+    (k = 1 ∧ b = .str "" ∧ a = .str "y") ∨ (k = 2 ∧ b = .str "" ∧ a = .str "") := by
+  by_cases h1 : k = 1
+  · subst h1; simp [mergedChange, c02Calcs] at h; simp [← h.1, ← h.2]
+  · by_cases h2 : k = 2
+    · subst h2; simp [mergedChange, c02Calcs] at h; simp [← h.1, ← h.2]
+    · have e1 : ¬ 1 = k := fun e => h1 e.symm
+      have e2 : ¬ 2 = k := fun e => h2 e.symm
+      simp [mergedChange, c02Calcs, e1, e2] at h
+
+/-- all hypotheses of the (B3) special case hold for it -/
+example : ∃ st', run c02St (c02Calcs.map (Step.calc "T" "B") ++ [.finish]) = .ok st' ∧
+    ∃ d', applyAll c02St.doc st'.stored = .ok d' ∧ Same d' st'.doc := by
+  refine ⟨_, rfl, ?_⟩
+  refine stored_faithful_calc_word (st := c02St) (t := "T") (c := "B") (tb := c02Tb)
+    (col := c02ColB) rfl rfl (by decide +kernel) (by decide +kernel) rfl rfl c02Calcs ?_ ?_ ?_ ?_ rfl
+  · intro ch h
+    simp [c02Calcs] at h
+    rcases h with rfl | rfl | rfl <;> simp [c02Tb]
+  · intro ch h
+    simp [c02Calcs] at h
+    rcases h with rfl | rfl | rfl <;> exact colSet_str _ _
+  · intro k b a h
+    rcases c02_merged k b a h with ⟨_, rfl, _⟩ | ⟨_, rfl, _⟩ <;> rfl
+  · intro k b a h he
+    rcases c02_merged k b a h with ⟨_, rfl, rfl⟩ | ⟨_, rfl, rfl⟩
+    · simp [equalEncoding] at he
+    · rfl
+
+/-! general form: a second table `U` edited by the user while column `T.B` is recomputed -/
+
+def c02TbU : Table :=
+  { id := "U", rows := [1], cols := [{ id := "X", info := c02Info, cells := fun _ => .str "" }] }
+def c02St2 : EState := { doc := [c02Tb, c02TbU] }
+
+def c02Word2 : List Step :=
+  [.doc (.bulkUpdate "U" [1] [("X", [.str "u"])]) true,
+   .calc "T" "B" [(1, .str "", .str "x")],
+   .doc (.bulkAdd "U" [2] [("X", [.str "v"])]) true,
+   .calc "T" "B" [(1, .str "x", .str "y"), (2, .str "", .str "")],
+   .doc (.bulkRemove "U" [1]) true]
+
+theorem c02_calcChs2 : calcChs c02Word2 = c02Calcs.flatten := rfl
+
+theorem c02_hw : ∀ s ∈ c02Word2, StepOK "T" "B" s := by
+  intro s hs
+  simp [c02Word2] at hs
+  rcases hs with rfl | rfl | rfl | rfl | rfl <;> simp [StepOK, bulkTable]
+
+theorem c02_hrows : ∀ ch ∈ calcChs c02Word2, ch.1 ∈ c02Tb.rows := by
+  rw [c02_calcChs2]
+  intro ch h
+  simp [c02Calcs] at h
+  rcases h with rfl | rfl | rfl <;> simp [c02Tb]
+
+/-- the bundle runs and stores the three user actions followed by one calc update of row 1 -/
+example : ∃ st', run c02St2 (c02Word2 ++ [.finish]) = .ok st' ∧
+    st'.stored = [.bulkUpdate "U" [1] [("X", [.str "u"])], .bulkAdd "U" [2] [("X", [.str "v"])],
+                  .bulkRemove "U" [1], .bulkUpdate "T" [1] [("B", [.str "y"])]] := by
+  refine ⟨_, rfl, ?_⟩
+  rw [bulk_calc_word_emits (st := c02St2) (t := "T") (c := "B") (tb := c02Tb) (col := c02ColB)
+    rfl rfl (by decide +kernel) (by decide +kernel) rfl rfl c02Word2 c02_hw c02_hrows rfl]
+  decide +kernel
+
+example : ∃ st', run c02St2 (c02Word2 ++ [.finish]) = .ok st' ∧
+    ∃ d', applyAll c02St2.doc st'.stored = .ok d' ∧ Same d' st'.doc := by
+  refine ⟨_, rfl, ?_⟩
+  refine stored_faithful_calc_fixed_schema (st := c02St2) (t := "T") (c := "B") (tb := c02Tb)
+    (col := c02ColB) rfl rfl (by decide +kernel) (by decide +kernel) rfl rfl c02Word2 c02_hw
+    c02_hrows ?_ ?_ ?_ rfl
+  · rw [c02_calcChs2]
+    intro ch h
+    simp [c02Calcs] at h
+    rcases h with rfl | rfl | rfl <;> exact colSet_str _ _
+  · rw [c02_calcChs2]
+    intro k b a h
+    rcases c02_merged k b a h with ⟨_, rfl, _⟩ | ⟨_, rfl, _⟩ <;> rfl
+  · rw [c02_calcChs2]
+    intro k b a h he
+    rcases c02_merged k b a h with ⟨_, rfl, rfl⟩ | ⟨_, rfl, rfl⟩
+    · simp [equalEncoding] at he
+    · rfl
+
+/-! ### why the extra hypotheses of (B3) are needed -/
+
+def c02CexCol : Col := { id := "B", info := c02FInfo, cells := fun _ => .int 1 }
+def c02CexTb : Table := { id := "T", rows := [1], cols := [c02CexCol] }
+def c02CexSt : EState := { doc := [c02CexTb] }
+
+/-- Counterexample to (B3) without the "no encoding-only change" hypothesis: the calc step turns
+    `1` into `1.0`; `equal_encoding` suppresses the update, nothing is stored, and the replayed
+    document (= the start document) does not show the same as the engine's document. -/
+example : ∃ st', run c02CexSt [.calc "T" "B" [(1, .int 1, .flt "1.0")], .finish] = .ok st' ∧
+    st'.stored = [] ∧ ¬ Same c02CexSt.doc st'.doc := by
+  refine ⟨_, rfl, by decide +kernel, ?_⟩
+  intro h
+  have h1 := h "T"
+  have e1 : findTable? c02CexSt.doc "T" = some c02CexTb := rfl
+  have hv := ColView.calc (ColView.self (d := c02CexSt.doc) (t := "T") (c := "B") (tb := c02CexTb)
+    (col := c02CexCol) rfl rfl) [(1, .int 1, .flt "1.0")]
+  obtain ⟨tbX, hX1, hX2, hX3, colX, hX4, hX5, hX6⟩ := hv.tbl
+  have e2 : (stepFinish (stepCalc c02CexSt "T" "B" [(1, .int 1, .flt "1.0")])).doc
+      = writeCalc c02CexSt.doc "T" "B" [(1, .int 1, .flt "1.0")] := rfl
+  rw [e2, e1, hX1] at h1
+  have h2 := h1.2 "B"
+  rw [show c02CexTb.findCol? "B" = some c02CexCol from rfl, hX4] at h2
+  have h3 := h2.2 1 (by simp [c02CexTb])
+  rw [hX6] at h3
+  simp [writeAfters, setCell, c02CexCol] at h3
+
 end Grist.Doc
